@@ -196,6 +196,27 @@ func (p *VipnodePool) Update(ctx context.Context, sig string, nodeID string, non
 	if err != nil {
 		return nil, err
 	}
+	// The update has checked in now. If it fails from here on, nothing is
+	// billed, so the time since the previous update must stay billable: put
+	// the previous check-in back (the low balance cut-off is not a failure in
+	// that sense, its charge stands).
+	billed := false
+	defer func() {
+		if billed {
+			return
+		}
+		current, err := p.Store.GetNode(store.NodeID(nodeID))
+		if err != nil {
+			logger.Printf("Failed update of %s: failed to restore the previous check-in: %s", pretty.Abbrev(nodeID), err)
+			return
+		}
+		current.LastSeen = node.LastSeen
+		current.BlockNumber = node.BlockNumber
+		if err := p.Store.SetNode(*current); err != nil {
+			logger.Printf("Failed update of %s: failed to restore the previous check-in: %s", pretty.Abbrev(nodeID), err)
+		}
+	}()
+
 	active, err := p.Store.NodePeers(store.NodeID(nodeID))
 	if err != nil {
 		return nil, err
@@ -222,15 +243,18 @@ func (p *VipnodePool) Update(ctx context.Context, sig string, nodeID string, non
 	// LastSeen that the next update will be billed from was saved a moment ago
 	// by UpdateNodePeers. Whatever time passed since then (slow store, busy
 	// pool) must not be billed by both updates, so leave it to the next one.
-	if updated, err := p.Store.GetNode(store.NodeID(nodeID)); err == nil {
-		if sinceSaved := time.Since(updated.LastSeen); sinceSaved > 0 {
-			nodeBeforeUpdate.LastSeen = nodeBeforeUpdate.LastSeen.Add(sinceSaved)
-		}
+	updated, err := p.Store.GetNode(store.NodeID(nodeID))
+	if err != nil {
+		return nil, err
+	}
+	if sinceSaved := time.Since(updated.LastSeen); sinceSaved > 0 {
+		nodeBeforeUpdate.LastSeen = nodeBeforeUpdate.LastSeen.Add(sinceSaved)
 	}
 
 	nodeBalance, err := p.BalanceManager.OnUpdate(nodeBeforeUpdate, active)
 	if err != nil {
 		if _, ok := err.(balance.LowBalanceError); ok {
+			billed = true
 			disconnectErr := p.disconnectPeers(ctx, nodeID, active)
 			if disconnectErr != nil {
 				logger.Printf("Client disconnect due to low balance: %q; disconnect RPC errors: %s", pretty.Abbrev(nodeID), disconnectErr)
@@ -240,6 +264,7 @@ func (p *VipnodePool) Update(ctx context.Context, sig string, nodeID string, non
 		}
 		return nil, err
 	}
+	billed = true
 	resp.Balance = &nodeBalance
 
 	nodeKind := node.Kind + "-light"
